@@ -89,10 +89,66 @@ def cases(draw):
             ops.insert(pos, draw(st.sampled_from([{"op": "ntick"}, {"op": "ntick"}, {"op": "nline", "text": f"{draw(st.integers(40, 45))};255;0;0;17;2.0"}])))
         if draw(st.booleans()):
             ops.append({"op": "ntick"})
+    if draw(st.integers(0, 4)) == 0:
+        # the asyncio gateway: stop() is a coroutine, and the transport may have a reconnect attempt in flight
+        # (the link was lost and the device is unreachable), one that has ended, or none
+        case["aio"] = {"link": draw(st.sampled_from(["none", "pending", "pending", "finished"]))}
     return case
 
 
+def check_async_case(case, stats=None):
+    """The same history through BaseAsyncGateway: lines, periodic saves (the scheduler's sleep is harness-driven)
+    and controller calls, then `await gateway.stop()` in a drawn link state."""
+    import asyncio
+
+    from vf.checks.c15 import Asyncio
+
+    version, ext = case["version"], case["ext"]
+    with persist.Scratch() as tmp:
+        path = os.path.join(tmp, f"net.{ext}")
+        life = Asyncio(version, path)
+        try:
+            life.start()
+            for op in case["ops"]:
+                if op["op"] == "line":
+                    if life.line(op["text"]).exc is not None:
+                        if stats is not None:
+                            stats.label("foreign:pump-crash")
+                        return
+                elif op["op"] == "tick":
+                    res = life.attempt()
+                    if isinstance(res, BaseException):
+                        raise Violation("tick_raises", case, f"asyncio: periodic save raised {res!r}")
+                elif op["op"] == "set":
+                    try:
+                        life.gw.set_child_value(op["n"], op["c"], op["vt"], op["value"])
+                    except Exception:  # pylint: disable=broad-except
+                        pass  # refused calls are judged by C05 / C08
+            link = case["aio"]["link"]
+            if link != "none":
+                async def redial():
+                    await asyncio.sleep(0 if link == "finished" else 3600)  # like the library's own: cancellation propagates
+
+                life.gw.tasks.transport.connect_task = life.loop.create_task(redial())
+                life._spin()  # pylint: disable=protected-access
+            before = drive.typed(drive.projection(life.gw))
+            try:
+                life.loop.run_until_complete(life.gw.stop())
+            except (Exception, asyncio.CancelledError) as exc:  # pylint: disable=broad-except
+                raise Violation(f"stop_raises.{ext}.{type(exc).__name__}", case, f"asyncio, {ext}, reconnect attempt {link}: stop() raised {type(exc).__name__}: {exc} - the state held at that moment is not on disk") from exc
+            after = drive.typed(drive.projection(persist.fresh_load(version, path).gw))
+            if after != before:
+                raise Violation(f"stop_loses_state.{ext}", case, f"asyncio, {ext}, reconnect attempt {link}: after stop() and restart the state differs: {first_diff(before, after)}")
+        finally:
+            life.close()
+    if stats is not None:
+        lines = [o for o in case["ops"] if o["op"] == "line"]
+        stats.case(common.chash(case) if len(lines) >= 3 else None, {"version": version, "ext": ext, "aio": case["aio"], "n_ops": len(case["ops"])}, labels=("asyncio", f"reconnect-{case['aio']['link']}", ext))
+
+
 def check_case(case, stats=None):
+    if case.get("aio"):
+        return check_async_case(case, stats)
     cwd = os.getcwd()
     try:
         return _check_case(case, stats)
